@@ -8,12 +8,13 @@ def NN(k): return dict(op="NewNode", k=k)
 def AP(k): return dict(op="AuthorizePending", k=k)
 def RG(k, kind, ex="none"): return dict(op="Rogue", k=k, kind=kind, ex=ex)
 RW = dict(op="RotateWait")
-ROGUES = ["foreign", "staleNonce", "noNonce", "wrongEku", "selfSigned", "foreignNoAlpn", "foreignExtraAlpn", "nextRootNotYetValid"]
+ROGUES = ["foreign", "staleNonce", "noNonce", "wrongEku", "selfSigned", "foreignNoAlpn", "foreignExtraAlpn", "nextRootNotYetValid", "staleNonceExtraCert"]
 def E(k): return dict(op="Enroll", k=k)
 def R(k): return dict(op="Remove", k=k)
 RE = dict(op="Reinit")
 def C(k, ck=None, chain="b0", priv=True, nsig=None, stt="none", skip=False, nid="none", pref="cur", cn=False, kind="auth"):
     return dict(op="Connect", kind=kind, k=k, ck=ck or k, chain=chain, priv=priv, nsig=(k if nsig is None else nsig), stt=stt, skip=skip, nid=nid, pref=pref, cn=cn)
+def RPL(c): return dict(c, replay=True)
 def D(k, ex="none", stt="none"): return dict(op="Dial", k=k, ex=ex, stt=stt)
 def M(cls, pfx="auth"): return dict(op="Malformed", cls=cls, pfx=pfx)
 def beh(i, props, c, ops): B.append(dict(id=i, props=props, cfg=c, ops=ops))
@@ -31,6 +32,10 @@ for nidl, nide in ((False, False), (True, False), (True, True)):
     beh("f02_bogus_nid" + ("n" if nidl else "") + ("e" if nide else ""), ["C02"], cfg(nidl=nidl, nide=nide),
         [E("k1"), E("k2"), C("k1", nid="bogus"), R("k1"), C("k1", nid="bogus"), C("k1", nid="bogus", nsig="kx"), C("k1", nid="bogus", nsig="none"), C("k1", nid="bogus", stt="forged"),
          C("k2", ck="k1", nid="own"), C("k2", ck="k1", nid="bogus"), C("k2", ck="k1", nid="other"), C("k2", nid="bogus"), D("k2")])
+# the identical request presented again (same nonce and signatures), before and after the record is removed
+for nidl in (False, True):
+    beh("f02_replay" + ("n" if nidl else ""), ["C02"], cfg(nidl=nidl), [E("k1"), E("k2"), C("k1"), RPL(C("k1")), C("k1", stt="ok"), RPL(C("k1", stt="ok")), C("k2", nid="own"), R("k1"), RPL(C("k1")), RPL(C("k1", stt="ok")), C("k1"),
+                                                                     RPL(C("k2", nid="own")), R("k2"), RPL(C("k2", nid="own")), RE, E("k3"), C("k3"), RPL(C("k3"))])
 beh("f02_mixed", ["C02", "C14"], cfg(), [E("k1"), C("k1", kind="mixedFA"), C("k1", kind="mixedFA", ck="k2", chain="self"), C("k1", kind="mixedFA", priv=False), C("k1", kind="mixedAF"),
                                        C("k1", kind="mixedAF", ck="k3", chain="self"), D("k1")])
 beh("f14_aborts", ["C14"], cfg(), [E("k1"), M("clientAlert", "auth"), D("k1"), M("clientAlert", "fetch"), M("resetMidHello", "auth"), M("resetAfterHello", "fetch"), M("clientAlert", "pref"), D("k1"),
